@@ -31,6 +31,8 @@ def completion_programs(n_sys, prios, later):
                     prog += tail
                     if len(out) % 3 == 1:
                         prog = [["logger", "quiet"]] + prog       # a model with a user logger that is not enabled for INFO
+                    if len(out) % 2 == 1:
+                        prog = [["shadow"]] + prog                # a second model lives beside it; the completer ends it too, afterwards
                     out.append(prog)
     return out
 
